@@ -50,33 +50,16 @@ fn mirror_t(tag: &str, m: &Mirror) -> Term {
     Term::list(v)
 }
 
-struct Case {
-    shards: usize,
+#[derive(Clone)]
+struct NbrCfg {
     ctx_t: Term,
     remote_addr: IpAddr,
     cluster: Option<Ipv4Addr>,
     max: usize,
     policy0: Option<Arc<table::PolicyAssignment>>,
-    import: Option<Arc<table::PolicyAssignment>>,
-    srcs: Vec<Arc<table::Source>>,
-    pfxs: Vec<(Ipv4Addr, u8, usize)>,
-    asets: Vec<Vec<packet::Attribute>>,
-    pols: Vec<Option<Arc<table::PolicyAssignment>>>,
-    pre: Vec<Term>,
-    ops: Vec<Term>,
 }
 
-fn parse_case(t: &Term) -> Option<Case> {
-    let [shards, ctx, sess, pol, imp, srcs, pfxs, asets, pols, pre, ops] = t.tagged("c01")? else {
-        return None;
-    };
-    let [k] = shards.tagged("shards")? else {
-        return None;
-    };
-    let k = nat_small(k)? as usize;
-    if !(1..=4).contains(&k) {
-        return None;
-    }
+fn nbr_cfg(ctx: &Term, sess: &Term, pol: &Term) -> Option<(NbrCfg, bool)> {
     ctx_of(ctx)?;
     let [raddr, cluster, mx, fam] = sess.tagged("sess")? else {
         return None;
@@ -89,6 +72,63 @@ fn parse_case(t: &Term) -> Option<Case> {
         return None;
     }
     let [pol] = pol.tagged("pol0")? else {
+        return None;
+    };
+    let has_nh = pol.tagged("pol").is_some_and(|a| a.get(1).is_some_and(|n| n.as_atom() != Some("none")));
+    Some((
+        NbrCfg {
+            ctx_t: ctx.clone(),
+            remote_addr: addr_of(raddr)?,
+            cluster: opt32(cluster)?.map(Ipv4Addr::from),
+            max: mx,
+            policy0: policy_of(pol)?,
+        },
+        has_nh,
+    ))
+}
+
+struct Case {
+    shards: usize,
+    nbrs: Vec<NbrCfg>,
+    gpolicy0: Option<Arc<table::PolicyAssignment>>,
+    import: Option<Arc<table::PolicyAssignment>>,
+    srcs: Vec<Arc<table::Source>>,
+    pfxs: Vec<(IpAddr, u8, usize)>,
+    asets: Vec<Vec<packet::Attribute>>,
+    pols: Vec<Option<Arc<table::PolicyAssignment>>>,
+    pre: Vec<Term>,
+    ops: Vec<Term>,
+}
+
+fn parse_case(t: &Term) -> Option<Case> {
+    let [shards, ctx, sess, pol, gpol, imp, nbr2, srcs, pfxs, asets, pols, pre, ops] = t.tagged("c01")? else {
+        return None;
+    };
+    let [k] = shards.tagged("shards")? else {
+        return None;
+    };
+    let k = nat_small(k)? as usize;
+    if !(1..=4).contains(&k) {
+        return None;
+    }
+    let (n1, nh1) = nbr_cfg(ctx, sess, pol)?;
+    let mut nbrs = vec![n1];
+    let mut any_nh = nh1;
+    let [nbr2] = nbr2.tagged("nbr2")? else {
+        return None;
+    };
+    if nbr2.as_atom() != Some("none") {
+        let [ctx2, sess2, pol2] = nbr2.as_list()? else {
+            return None;
+        };
+        let (n2, nh2) = nbr_cfg(ctx2, sess2, pol2)?;
+        if n2.remote_addr == nbrs[0].remote_addr {
+            return None;
+        }
+        any_nh |= nh2;
+        nbrs.push(n2);
+    }
+    let [gpol] = gpol.tagged("gpol0")? else {
         return None;
     };
     // import policy: `none` or `(origin v)` = reject routes whose ORIGIN is v
@@ -126,22 +166,47 @@ fn parse_case(t: &Term) -> Option<Case> {
         .iter()
         .map(source_of)
         .collect::<Option<_>>()?;
-    let mut pf = Vec::new();
+    let mut pf: Vec<(IpAddr, u8, usize)> = Vec::new();
     for p in pfxs.tagged("pfxs")? {
-        let [a, l, s] = p.as_list()? else {
-            return None;
+        let l0 = p.as_list()?;
+        let (addr, l, s): (IpAddr, u64, usize) = match l0 {
+            [a, l, s] => {
+                let l = nat_small(l)?;
+                let a = nat32(a)?;
+                // canonical prefixes only (no host bits)
+                if l > 32 || (l < 32 && (a as u64) % (1u64 << (32 - l)) != 0) {
+                    return None;
+                }
+                (IpAddr::V4(Ipv4Addr::from(a)), l, nat_small(s)? as usize)
+            }
+            [six, a, l, s] if six.as_atom() == Some("6") => {
+                let l = nat_small(l)?;
+                let a = nat128(a)?;
+                if l > 128 || a < (1u128 << 32) || (l < 128 && a % (1u128 << (128 - l)) != 0) {
+                    return None;
+                }
+                (IpAddr::V6(Ipv6Addr::from(a)), l, nat_small(s)? as usize)
+            }
+            _ => return None,
         };
-        let l = nat_small(l)?;
-        let s = nat_small(s)? as usize;
-        let a = nat32(a)?;
-        // canonical prefixes only (no host bits), all different
-        if l > 32 || s >= k || (l < 32 && (a as u64) % (1u64 << (32 - l)) != 0) {
+        if s >= k || pf.iter().any(|(x, y, _)| *x == addr && *y == l as u8) {
             return None;
         }
-        if pf.iter().any(|(x, y, _)| *x == Ipv4Addr::from(a) && *y == l as u8) {
+        pf.push((addr, l as u8, s));
+    }
+    // IPv6 prefixes only towards receivers whose next hop is left alone and with policies that set none
+    let pols_t = pols.tagged("pols")?;
+    let has_nh = |t: &Term| t.tagged("pol").is_some_and(|a| a.get(1).is_some_and(|n| n.as_atom() != Some("none")));
+    if pf.iter().any(|p| p.0.is_ipv6()) {
+        let roles_ok = nbrs.iter().all(|n| {
+            matches!(
+                ctx_of(&n.ctx_t).unwrap().role,
+                PeerRole::Ibgp | PeerRole::IbgpRrClient | PeerRole::RsClient
+            )
+        });
+        if !roles_ok || any_nh || has_nh(gpol) || pols_t.iter().any(has_nh) {
             return None;
         }
-        pf.push((Ipv4Addr::from(a), l as u8, s));
     }
     let asets: Vec<_> = asets
         .tagged("asets")?
@@ -155,11 +220,8 @@ fn parse_case(t: &Term) -> Option<Case> {
         .collect::<Option<_>>()?;
     let c = Case {
         shards: k,
-        ctx_t: ctx.clone(),
-        remote_addr: addr_of(raddr)?,
-        cluster: opt32(cluster)?.map(Ipv4Addr::from),
-        max: mx,
-        policy0: policy_of(pol)?,
+        nbrs,
+        gpolicy0: policy_of(gpol)?,
         import,
         srcs,
         pfxs: pf,
@@ -182,6 +244,7 @@ enum Op {
     Llgr(usize),
     Nh(u32, bool),
     Reset(Option<usize>),
+    Greset(Option<usize>),
     Deliver(usize),
     Flush,
 }
@@ -193,12 +256,15 @@ fn parse_op(c: &Case, t: &Term, pre: bool) -> Option<Op> {
     };
     if let Some([s, p, rpid, a, nh]) = t.tagged("ann") {
         let nh = nh_of(nh)?;
-        if !matches!(nh, bgp::Nexthop::V4(_)) {
-            return None;
+        let pi = idx(p, c.pfxs.len())?;
+        // the next hop is of the prefix's family
+        match (&nh, c.pfxs[pi].0) {
+            (bgp::Nexthop::V4(_), IpAddr::V4(_)) | (bgp::Nexthop::V6(_), IpAddr::V6(_)) => {}
+            _ => return None,
         }
         return Some(Op::Ann(
             idx(s, c.srcs.len())?,
-            idx(p, c.pfxs.len())?,
+            pi,
             nat32(rpid)?,
             idx(a, c.asets.len())?,
             nh,
@@ -234,6 +300,12 @@ fn parse_op(c: &Case, t: &Term, pre: bool) -> Option<Op> {
         }
         return Some(Op::Reset(Some(idx(k, c.pols.len())?)));
     }
+    if let Some([k]) = t.tagged("greset") {
+        if k.as_atom() == Some("none") {
+            return Some(Op::Greset(None));
+        }
+        return Some(Op::Greset(Some(idx(k, c.pols.len())?)));
+    }
     if let Some([n]) = t.tagged("deliver") {
         return Some(Op::Deliver(nat_small(n)? as usize));
     }
@@ -244,24 +316,44 @@ fn parse_op(c: &Case, t: &Term, pre: bool) -> Option<Op> {
 }
 
 fn net_of(c: &Case, p: usize) -> packet::Nlri {
-    packet::Nlri::V4(packet::bgp::Ipv4Net {
-        addr: c.pfxs[p].0,
-        mask: c.pfxs[p].1,
-    })
+    match c.pfxs[p].0 {
+        IpAddr::V4(addr) => packet::Nlri::V4(packet::bgp::Ipv4Net {
+            addr,
+            mask: c.pfxs[p].1,
+        }),
+        IpAddr::V6(addr) => packet::Nlri::V6(packet::bgp::Ipv6Net {
+            addr,
+            mask: c.pfxs[p].1,
+        }),
+    }
 }
 
-fn new_session(c: &Case, tables: &TableHandle) -> PeerSession {
-    let mut s = PeerSession::new_for_test(c.remote_addr, make_context(), tables.clone());
-    s.export_ctx = ctx_of(&c.ctx_t).unwrap();
-    s.cluster_id = c.cluster;
-    s.codec.set_family(
-        Family::IPV4,
-        bgp::FamilyState {
-            addpath_rx: false,
-            addpath_tx: c.max > 1,
-        },
-    );
-    s.effective_max.insert(Family::IPV4, c.max);
+fn fam_of(c: &Case, p: usize) -> Family {
+    if c.pfxs[p].0.is_ipv6() { Family::IPV6 } else { Family::IPV4 }
+}
+
+fn fams(c: &Case) -> Vec<Family> {
+    if c.pfxs.iter().any(|p| p.0.is_ipv6()) {
+        vec![Family::IPV4, Family::IPV6]
+    } else {
+        vec![Family::IPV4]
+    }
+}
+
+fn new_session(c: &Case, n: &NbrCfg, tables: &TableHandle) -> PeerSession {
+    let mut s = PeerSession::new_for_test(n.remote_addr, make_context(), tables.clone());
+    s.export_ctx = ctx_of(&n.ctx_t).unwrap();
+    s.cluster_id = n.cluster;
+    for f in fams(c) {
+        s.codec.set_family(
+            f,
+            bgp::FamilyState {
+                addpath_rx: false,
+                addpath_tx: n.max > 1,
+            },
+        );
+        s.effective_max.insert(f, n.max);
+    }
     s.state.remote_asn.store(64999, Ordering::Relaxed);
     s.state
         .remote_cap
@@ -332,7 +424,7 @@ async fn run(c: &Case) -> String {
         for (i, p) in c.pfxs.iter().enumerate() {
             probe.insert_route(
                 src.clone(),
-                Family::IPV4,
+                fam_of(c, i),
                 packet::PathNlri::new(net_of(c, i)),
                 Some(bgp::Nexthop::V4(Ipv4Addr::new(192, 0, 2, 1))),
                 Arc::new(Vec::new()),
@@ -343,7 +435,7 @@ async fn run(c: &Case) -> String {
             for (k, sh) in probe.shards.iter().enumerate() {
                 let t = sh.lock().unwrap();
                 if t.rtable
-                    .collect_loc_rib_paths(&Family::IPV4)
+                    .collect_loc_rib_paths(&fam_of(c, i))
                     .iter()
                     .any(|ch| ch.net == net_of(c, i))
                 {
@@ -359,7 +451,7 @@ async fn run(c: &Case) -> String {
         Op::Ann(s, p, rpid, a, nh) => {
             tables.insert_route(
                 c.srcs[*s].clone(),
-                Family::IPV4,
+                fam_of(c, *p),
                 packet::PathNlri {
                     path_id: *rpid,
                     nlri: net_of(c, *p),
@@ -373,7 +465,7 @@ async fn run(c: &Case) -> String {
         Op::Wd(s, p, rpid) => {
             tables.remove_route(
                 c.srcs[*s].clone(),
-                Family::IPV4,
+                fam_of(c, *p),
                 packet::PathNlri {
                     path_id: *rpid,
                     nlri: net_of(c, *p),
@@ -383,10 +475,10 @@ async fn run(c: &Case) -> String {
             );
         }
         Op::Down(s) => {
-            tables.drop_families(c.srcs[*s].remote_addr, &[Family::IPV4]);
+            tables.drop_families(c.srcs[*s].remote_addr, &fams(c));
         }
         Op::Llgr(s) => {
-            tables.mark_llgr_stale(c.srcs[*s].remote_addr, &[Family::IPV4]);
+            tables.mark_llgr_stale(c.srcs[*s].remote_addr, &fams(c));
         }
         Op::Nh(a, up) => {
             tables.update_nexthop_validity(IpAddr::V4(Ipv4Addr::from(*a)), *up);
@@ -397,114 +489,198 @@ async fn run(c: &Case) -> String {
         rib_op(&parse_op(c, o, true).unwrap());
     }
     let local_sa = SocketAddr::new(IpAddr::V4(Ipv4Addr::new(127, 0, 0, 1)), 179);
-    let remote_sa = SocketAddr::new(c.remote_addr, 40000);
-    let mut a = new_session(c, &tables);
-    a.state.export_policy.store(c.policy0.clone());
-    a.on_established(local_sa, remote_sa).await;
-    let addpath = c.max > 1;
-    let mut mirror = Mirror::new();
-    let mut q: VecDeque<Ev> = VecDeque::new();
-    let mut flushes = vec![Term::atom("flushes")];
-    let mut owner: FnvHashMap<u32, packet::Nlri> = FnvHashMap::default();
-    let mut reuse = 0u64;
-    let mut overtaken = 0u64;
-    let mut policy = c.policy0.clone();
-    let mut err: Option<&'static str> = None;
+    // the two holders of an export policy: the neighbour's own assignment (PeerState) and the global
+    // one (TableManager); the session code looks them up itself
+    tables.export_policy.store(c.gpolicy0.clone());
 
-    async fn deliver(
-        a: &mut PeerSession,
-        q: &mut VecDeque<Ev>,
-        n: usize,
-        owner: &mut FnvHashMap<u32, packet::Nlri>,
-        reuse: &mut u64,
-        overtaken: &mut u64,
-    ) {
+    /// one observing neighbour
+    struct Obsv {
+        cfg: NbrCfg,
+        remote_sa: SocketAddr,
+        a: PeerSession,
+        addpath: bool,
+        mirror: Mirror,
+        q: VecDeque<Ev>,
+        flushes: Vec<Term>,
+        quiet: Vec<Term>,
+        owner: FnvHashMap<(Family, u32), packet::Nlri>,
+        reuse: u64,
+        overtaken: u64,
+        policy: Option<Arc<table::PolicyAssignment>>,
+        err: Option<&'static str>,
+    }
+    let mut obs: Vec<Obsv> = Vec::new();
+    for n in &c.nbrs {
+        let remote_sa = SocketAddr::new(n.remote_addr, 40000);
+        let mut a = new_session(c, n, &tables);
+        a.state.export_policy.store(n.policy0.clone());
+        a.on_established(local_sa, remote_sa).await;
+        obs.push(Obsv {
+            cfg: n.clone(),
+            remote_sa,
+            a,
+            addpath: n.max > 1,
+            mirror: Mirror::new(),
+            q: VecDeque::new(),
+            flushes: vec![Term::atom("flushes")],
+            quiet: vec![Term::atom("quiet")],
+            owner: FnvHashMap::default(),
+            reuse: 0,
+            overtaken: 0,
+            policy: n.policy0.clone(),
+            err: None,
+        });
+    }
+
+    async fn deliver(o: &mut Obsv, n: usize) {
         for _ in 0..n {
-            let Some(e) = q.pop_front() else { break };
+            let Some(e) = o.q.pop_front() else { break };
             match e {
                 Ev::Change(u) => {
-                    if let Some(old) = owner.insert(u.dest_id, u.net.clone())
+                    if let Some(old) = o.owner.insert((u.family, u.dest_id), u.net.clone())
                         && old != u.net
                     {
-                        *reuse += 1;
+                        o.reuse += 1;
                     }
-                    a.handle_prefix_update(u);
+                    o.a.handle_prefix_update(u);
                 }
                 Ev::SoftReset => {
                     // the refresh walks the RIB as it is now: are changes still queued behind it?
-                    if q.iter().any(|e| matches!(e, Ev::Change(_))) {
-                        *overtaken += 1;
+                    if o.q.iter().any(|e| matches!(e, Ev::Change(_))) {
+                        o.overtaken += 1;
                     }
-                    for family in a.pending.keys().cloned().collect::<Vec<_>>() {
-                        a.do_route_refresh(family).await;
+                    for family in o.a.pending.keys().cloned().collect::<Vec<_>>() {
+                        o.a.do_route_refresh(family).await;
                     }
                 }
             }
         }
     }
 
-    for o in &c.ops {
-        let op = parse_op(c, o, false).unwrap();
+    /// what a brand-new session to the same neighbour is sent from the current RIB and policies
+    async fn fresh_dump(
+        c: &Case,
+        tables: &TableHandle,
+        o: &mut Obsv,
+        local_sa: SocketAddr,
+        carry_on: bool,
+    ) -> Mirror {
+        // (its registration replaces the observing session's channel, which pump() has emptied: the
+        // observing session carries on with the new channel)
+        pump(&mut o.a, &mut o.q, false);
+        let mut b = new_session(c, &o.cfg, tables);
+        b.state.export_policy.store(o.policy.clone());
+        b.on_established(local_sa, o.remote_sa).await;
+        let bytes = flush(&mut b);
+        let mut dump = Mirror::new();
+        if let Err(e) = apply_bytes(&bytes, o.addpath, &mut dump) {
+            o.err = Some(e);
+        }
+        if carry_on {
+            o.a.peer_event_rx = b.peer_event_rx.take();
+        }
+        dump
+    }
+
+    for op_t in &c.ops {
+        let op = parse_op(c, op_t, false).unwrap();
         match &op {
             Op::Ann(..) | Op::Wd(..) => {
                 rib_op(&op);
-                pump(&mut a, &mut q, false);
+                for o in obs.iter_mut() {
+                    pump(&mut o.a, &mut o.q, false);
+                }
             }
             Op::Down(_) | Op::Llgr(_) | Op::Nh(..) => {
                 rib_op(&op);
-                pump(&mut a, &mut q, true);
+                for o in obs.iter_mut() {
+                    pump(&mut o.a, &mut o.q, true);
+                }
             }
             Op::Reset(k) => {
-                policy = match k {
+                // the FIRST neighbour's own export policy
+                let o = &mut obs[0];
+                o.policy = match k {
                     None => None,
                     Some(i) => c.pols[*i].clone(),
                 };
-                a.state.export_policy.store(policy.clone());
-                tables.soft_reset_out(c.remote_addr);
-                pump(&mut a, &mut q, false);
+                o.a.state.export_policy.store(o.policy.clone());
+                tables.soft_reset_out(o.cfg.remote_addr);
+                pump(&mut o.a, &mut o.q, false);
+            }
+            Op::Greset(k) => {
+                let g = match k {
+                    None => None,
+                    Some(i) => c.pols[*i].clone(),
+                };
+                tables.export_policy.store(g);
+                for o in obs.iter_mut() {
+                    tables.soft_reset_out(o.cfg.remote_addr);
+                    pump(&mut o.a, &mut o.q, false);
+                }
             }
             Op::Deliver(n) => {
-                deliver(&mut a, &mut q, *n, &mut owner, &mut reuse, &mut overtaken).await
+                for o in obs.iter_mut() {
+                    deliver(o, *n).await;
+                }
             }
             Op::Flush => {
-                let bytes = flush(&mut a);
-                if let Err(e) = apply_bytes(&bytes, addpath, &mut mirror) {
-                    err = Some(e);
+                for o in obs.iter_mut() {
+                    let bytes = flush(&mut o.a);
+                    if let Err(e) = apply_bytes(&bytes, o.addpath, &mut o.mirror) {
+                        o.err = Some(e);
+                    }
+                    if o.q.is_empty() {
+                        // nothing left in the channel: what would a brand-new session be sent right now?
+                        let dump = fresh_dump(c, &tables, o, local_sa, true).await;
+                        o.quiet.push(Term::tag(
+                            "q",
+                            vec![
+                                Term::nat((o.flushes.len() - 1) as u64),
+                                Term::nat(o.reuse),
+                                Term::nat(o.overtaken),
+                                mirror_t("m", &o.mirror),
+                                mirror_t("d", &dump),
+                            ],
+                        ));
+                    }
+                    o.flushes.push(mirror_t("m", &o.mirror));
                 }
-                flushes.push(mirror_t("m", &mirror));
             }
         }
     }
-    // quiesce: everything delivered, everything flushed
-    let n = q.len();
-    deliver(&mut a, &mut q, n, &mut owner, &mut reuse, &mut overtaken).await;
-    let bytes = flush(&mut a);
-    if let Err(e) = apply_bytes(&bytes, addpath, &mut mirror) {
-        err = Some(e);
+    // quiesce: everything delivered, everything flushed; then the fresh dump
+    let mut out: Vec<Term> = Vec::new();
+    for o in obs.iter_mut() {
+        let n = o.q.len();
+        deliver(o, n).await;
+        let bytes = flush(&mut o.a);
+        if let Err(e) = apply_bytes(&bytes, o.addpath, &mut o.mirror) {
+            o.err = Some(e);
+        }
     }
-    // what a brand-new session to the same neighbour is sent from the current RIB and policy
-    let mut b = new_session(c, &tables);
-    b.state.export_policy.store(policy.clone());
-    b.on_established(local_sa, remote_sa).await;
-    let bytes = flush(&mut b);
-    let mut dump = Mirror::new();
-    if let Err(e) = apply_bytes(&bytes, addpath, &mut dump) {
-        err = Some(e);
+    for o in obs.iter_mut() {
+        let dump = fresh_dump(c, &tables, o, local_sa, false).await;
+        if let Some(e) = o.err {
+            return format!("(wire-error {})", e);
+        }
+        out.push(Term::tag(
+            "obs",
+            vec![
+                Term::tag("reuse", vec![Term::nat(o.reuse)]),
+                Term::tag("overtaken", vec![Term::nat(o.overtaken)]),
+                Term::list(std::mem::take(&mut o.flushes)),
+                Term::list(std::mem::take(&mut o.quiet)),
+                mirror_t("final", &o.mirror),
+                mirror_t("dump", &dump),
+            ],
+        ));
     }
-    if let Some(e) = err {
-        return format!("(wire-error {})", e);
+    if out.len() == 2 {
+        Term::tag("pair", out).to_string()
+    } else {
+        out.pop().unwrap().to_string()
     }
-    Term::tag(
-        "obs",
-        vec![
-            Term::tag("reuse", vec![Term::nat(reuse)]),
-            Term::tag("overtaken", vec![Term::nat(overtaken)]),
-            Term::list(flushes),
-            mirror_t("final", &mirror),
-            mirror_t("dump", &dump),
-        ],
-    )
-    .to_string()
 }
 
 fn run_case(rt: &tokio::runtime::Runtime, line: &str) -> String {
@@ -520,14 +696,27 @@ fn run_case(rt: &tokio::runtime::Runtime, line: &str) -> String {
         let mut out = vec![Term::atom("shards")];
         for p in pf {
             let l = p.as_list().unwrap();
-            let net = packet::Nlri::V4(packet::bgp::Ipv4Net {
-                addr: Ipv4Addr::from(nat32(&l[0]).unwrap()),
-                mask: nat_small(&l[1]).unwrap() as u8,
-            });
+            let (net, fam) = if l.len() == 3 && l[0].as_atom() == Some("6") {
+                (
+                    packet::Nlri::V6(packet::bgp::Ipv6Net {
+                        addr: Ipv6Addr::from(nat128(&l[1]).unwrap()),
+                        mask: nat_small(&l[2]).unwrap() as u8,
+                    }),
+                    Family::IPV6,
+                )
+            } else {
+                (
+                    packet::Nlri::V4(packet::bgp::Ipv4Net {
+                        addr: Ipv4Addr::from(nat32(&l[0]).unwrap()),
+                        mask: nat_small(&l[1]).unwrap() as u8,
+                    }),
+                    Family::IPV4,
+                )
+            };
             let tm = TableManager::new(k);
             tm.insert_route(
                 table::Source::local(),
-                Family::IPV4,
+                fam,
                 packet::PathNlri::new(net),
                 None,
                 Arc::new(Vec::new()),
@@ -540,7 +729,7 @@ fn run_case(rt: &tokio::runtime::Runtime, line: &str) -> String {
                     .lock()
                     .unwrap()
                     .rtable
-                    .collect_loc_rib_paths(&Family::IPV4)
+                    .collect_loc_rib_paths(&fam)
                     .is_empty()
                 {
                     real = i as u32;
